@@ -191,6 +191,7 @@ def run(ctx, rep):
     must_precede(ctx, rep, R, "18", E, SAVE_FILE(r"ConfigFile"), call_pred(r"^rustic_core::commands::config::save_config_hot$"),
                  what_a="save_file_uncompressed (cold config)", what_b="save_config_hot")
     rep.floor(R, "instances evaluated", len({o.key.split('/')[2] for o in rep.obs if o.rule == R}), 18)
+    config_never_removed(ctx, rep, R)
 
     from rules import errprop, flush
     errprop.run(ctx, rep, "R-ERRPROP")
@@ -256,6 +257,30 @@ def _rule11(ctx, rep, R, E, A, B):
         rep.check(R, key + f"/order/{kind}/{[x for _, x in targets].index(b) + 1}", ok, where=where(E, b),
                   what=(f"{fn_key(E)}: within one iteration every path to the {kind} of an index file passes its successful {wa}" if ok else
                         f"{fn_key(E)}: an index file can be {'removed' if kind == 'remove' else 'queued for removal'} WITHOUT its replacement having been saved in that iteration"))
+
+
+def config_never_removed(ctx, rep, R):
+    """19: the repository config is the one file that is replaced in place: it is only ever (over)written, never removed -
+    a remove-then-write sequence leaves a window (or a failed write) with no config at all and every snapshot unreadable.
+    Expected count zero: no removal effect with file type Config is reachable from any function of rustic_core."""
+    from rules.C15 import SiteEffects
+    prog, cg = ctx.prog, ctx.cg
+    rm = SiteEffects(prog, cg, kinds=("RM",))
+    rm.compute()
+    bad = []
+    nsites = 0
+    for b in prog.by_crate["rustic_core"]:
+        for e in rm.summ.get(b.path, frozenset()):
+            nsites += 1
+            if e[1] == "Config":
+                bad.append((fn_key(b), e[2], e[3]))
+    # positive control: the machinery sees the typed removals it is supposed to see (snapshots are removed somewhere)
+    seen_types = {e[1] for b in prog.by_crate["rustic_core"] for e in rm.summ.get(b.path, frozenset()) if isinstance(e[1], str)}
+    rep.require(R, "19/positive-control", "Snapshot" in seen_types or "Index" in seen_types, where="", what=f"typed removal effects are visible to the analysis (types seen: {sorted(seen_types)})")
+    first = sorted(bad)[0] if bad else None
+    rep.check(R, "19/config-never-removed", not bad, where=first[2] if first else "crates/core/src/commands/config.rs",
+              what="no function removes the repository config file (it is replaced by overwriting only)" if not bad else
+                   f"{first[0]} can remove the repository config file (site {first[1]}): between removal and rewrite - or after a failed rewrite - the repository has no config")
 
 
 def must_precede_each(ctx, rep, rule, name, E, A, B, what_a, what_b):
